@@ -244,3 +244,34 @@ def boundary_cases(quick):
                 for pol in pols:
                     cases.append(([("Root", [sample])], {}, pol, "bnd"))
     return cases
+
+
+# ---------------------------------------------------------------------- MC_Registry
+CFG_REGISTRY = """SPECIFICATION Spec
+CONSTANTS
+  UniverseId = "%s"
+  Emit = %s
+INVARIANT SoundG
+INVARIANT TightG
+INVARIANT NormalG
+INVARIANT PartitionG
+INVARIANT RefsG
+INVARIANT OrderFreeG
+INVARIANT Agrees
+PROPERTY Terminates
+CHECK_DEADLOCK FALSE
+"""
+MCR_STRINGS = {"sA": "foo", "sB": "bar", "sInt": "1", "p": "p", "q": "q", "x": "x", "y": "y", "f": "f", "u": "u", "v": "v"}
+MCR_POLICY = {"exact": [("exact", 0)], "p50": [("percent", 50)], "n1": [("number", 1)], "dflt": [("percent", 70), ("number", 10)]}
+
+
+def mc_registry(chk, universe, emit=True, timeout=3000):
+    r = chk.model_check("MC_Registry", CFG_REGISTRY % (universe, "TRUE" if emit else "FALSE"),
+                        "registry pipeline state machine (generate, register, closure passes, group merges, final optimise), universe %s: "
+                        "SoundG TightG NormalG PartitionG RefsG OrderFreeG Agrees, Terminates" % universe, timeout=timeout)
+    out = []
+    if emit:
+        for t in tlc.printed_tuples(r["out"], "B"):
+            b = json.loads(t[1])
+            out.append(([("Root", [DI.concretise(s, MCR_STRINGS) for s in b["samples"]])], {}, MCR_POLICY[b["policy"]], "mcr"))
+    return out
